@@ -555,6 +555,19 @@ def truth_nnf(e, neg=False):
         return T if neg else F
     if _truthy_const(e):
         return F if neg else T
+    if isinstance(e, ast.Compare) and len(e.ops) == 1 and isinstance(e.ops[0], (ast.Is, ast.IsNot)) and isinstance(e.comparators[0], ast.Constant) and e.comparators[0].value is None:
+        # `X is None` / `X is not None` through conditional expressions and for values that are obviously (not) None
+        want_none = isinstance(e.ops[0], ast.Is) != neg
+        x = e.left
+        if isinstance(x, ast.IfExp):
+            mkc = lambda v: ast.Compare(left=v, ops=[ast.Is() if want_none else ast.IsNot()], comparators=[ast.Constant(value=None)])  # noqa: E731
+            return mk(ast.Or, [mk(ast.And, [truth_nnf(x.test), truth_nnf(mkc(x.body))]), mk(ast.And, [truth_nnf(x.test, True), truth_nnf(mkc(x.orelse))])])
+        if isinstance(x, ast.Constant):
+            return T if (x.value is None) == want_none else F
+        if isinstance(x, (ast.Tuple, ast.List, ast.Dict, ast.Set, ast.JoinedStr, ast.ListComp, ast.DictComp, ast.SetComp, ast.GeneratorExp)) or (
+                isinstance(x, ast.Call) and isinstance(x.func, ast.Name) and x.func.id in ("tuple", "list", "dict", "set", "frozenset", "str", "bytes", "int", "float", "bool")):
+            return F if want_none else T
+        return ast.Compare(left=x, ops=[ast.Is() if want_none else ast.IsNot()], comparators=[ast.Constant(value=None)])
     if neg and isinstance(e, ast.Compare) and len(e.ops) == 1:
         return ast.Compare(left=e.left, ops=[_NEG[type(e.ops[0])]()], comparators=e.comparators)
     return ast.UnaryOp(op=ast.Not(), operand=e) if neg else e
